@@ -99,6 +99,10 @@ theorem setHidx_ok {h : Array HTag} {j v : Nat} (hj : j < h.size) :
 
 @[simp] theorem ok_bind {α β : Type} (a : α) (f : α → Except Fault β) : (Except.ok a >>= f) = f a := rfl
 
+@[simp] theorem ok_map {α β : Type} (a : α) (f : α → β) : (f <$> (Except.ok a : Except Fault α)) = .ok (f a) := rfl
+
+@[simp] theorem ok_pure {α : Type} (a : α) : (pure a : Except Fault α) = .ok a := rfl
+
 /-! ### live entries -/
 
 /-- `i` is a live heap index -/
